@@ -56,6 +56,8 @@ structure State where
   hooks : List Hook := []
   /-- per-target call counters of the probe configurables -/
   calls : AList Sel Nat := []
+  /-- number of singleton constructors run so far (names the constructed objects) -/
+  constructed : Nat := 0
 deriving Inhabited
 
 namespace State
@@ -285,6 +287,15 @@ def clear (st : State) (clearConstants : Bool) : State :=
             operative := [],
             constants := if clearConstants then initConstants else st.constants }
 
+/-- `singleton_value(key, constructor)` (2757-2766): look up or construct-and-cache. -/
+def singletonUse (st : State) (key : String) (hasCtor : Bool) : Except Err (State × Val) :=
+  match AList.lookup key st.singletons with
+  | some v => .ok (st, v)
+  | none =>
+    if !hasCtor then .error .valueError else
+    let v := Val.obj (7000 + st.constructed)
+    .ok ({ st with singletons := AList.set key v st.singletons, constructed := st.constructed + 1 }, v)
+
 end State
 
 /-! ### histories of operations -/
@@ -302,6 +313,7 @@ inductive Op where
   | clear (constants : Bool)
   | constant (name : Sel) (nameValid : Bool) (v : Val)
   | interactive (on : Bool)
+  | singleton (key : String) (hasCtor : Bool)
   | observe (what : String)
   | enter (cur : Scope) (arg : ScopeArg)
   | unlock (body : List Op) (raises : Bool)
@@ -364,6 +376,8 @@ mutual
     | .constant name valid v => match st.defConstant name valid v with
         | .ok st' => (st', .ok) | .error e => (st, .err e)
     | .interactive on => ({ st with interactive := on }, .ok)
+    | .singleton key hasCtor => match st.singletonUse key hasCtor with
+        | .ok (st', v) => (st', .value v) | .error e => (st, .err e)
     | .observe what =>
         (st, match what with
           | "locked" => .flag st.locked
